@@ -701,6 +701,33 @@ Proof.
   - destruct (custom_overlay cfg); [apply Hm|exact I].
 Qed.
 
+(* ---------- numeric QVariant types ---------- *)
+Lemma num_store_in_range t z : num_in_range t z = true -> num_store t z = z.
+Proof.
+  unfold num_in_range, num_store, two24, two31, two32, two53, two64.
+  destruct t; intros H; apply andb_prop in H as [H1 H2]; try reflexivity; lia.
+Qed.
+(* outside the range the 32-bit types wrap: the model follows the C++ conversion *)
+Lemma num_store_wraps : num_store TInt two31 = (- two31)%Z /\ num_store TUInt (-1) = (two32 - 1)%Z /\ num_store TUInt two32 = 0%Z.
+Proof. repeat split. Qed.
+(* the decimal text of a number identifies it *)
+Lemma uint_chars_inj a : forall b, uint_chars a = uint_chars b -> a = b.
+Proof.
+  induction a; destruct b; cbn [uint_chars]; intros E; try reflexivity; try discriminate E;
+    injection E as E; try discriminate; f_equal; apply IHa; assumption.
+Qed.
+Lemma uint_chars_not_minus u : forall t, uint_chars u <> 45 :: t.
+Proof. destruct u; cbn [uint_chars]; intros t E; discriminate E. Qed.
+Theorem num_chars_inj a b : num_chars a = num_chars b -> a = b.
+Proof.
+  unfold num_chars. intros E. rewrite <- (DecimalZ.of_to a), <- (DecimalZ.of_to b).
+  destruct (Z.to_int a) as [u|u], (Z.to_int b) as [w|w].
+  - apply uint_chars_inj in E. subst. reflexivity.
+  - exfalso. exact (uint_chars_not_minus _ _ E).
+  - exfalso. symmetry in E. exact (uint_chars_not_minus _ _ E).
+  - injection E as E. apply uint_chars_inj in E. subst. reflexivity.
+Qed.
+
 (* ---------- the headline results, for every good configuration ---------- *)
 Section Good.
 Variable cfg : json_cfg.
@@ -805,6 +832,15 @@ Proof.
   - destruct flag; [|reflexivity]. apply no_line_break_ge32, compact_record_one_line.
   - unfold only_known. apply forallb_forall. intros [k v] Hin. cbn [fst]. apply orb_true_iff.
     apply nothing_else. apply in_map_iff. exists (k, v). split; [reflexivity|exact Hin].
+Qed.
+(* numeric attribute values of every QVariant type (int, uint, qlonglong, qulonglong, double, float):
+   within the range of the type the stored number is z itself and it is read back as z *)
+Theorem numeric_attribute_recovered flag m pre k t z post : wf_msg m ->
+  mattrs m = pre ++ (k, num_value t z) :: post -> has_key k post = false -> num_in_range t z = true ->
+  exists kv, parse_doc (json_format cfg flag m) = Some (JObj kv) /\ look k kv = Some (JNum z).
+Proof.
+  intros Hm E Hk Hr. destruct (fields_recovered flag m Hm) as (kv & Hp & _ & Hc). exists kv. split; [exact Hp|].
+  rewrite (Hc pre k (num_value t z) post E Hk). unfold num_value. rewrite (num_store_in_range t z Hr). reflexivity.
 Qed.
 End Good.
 
